@@ -221,7 +221,20 @@ def handleDef (st : State) (args : List String) : State × String :=
         let st' := match r with
           | .ok tk => { st with toks := st.toks.insert slot tk, building := st.building.erase slot }
           | .error _ => { st with toks := st.toks.erase slot, building := st.building.erase slot }
-        (st', s!"{showInit r} || HOLDS-NA")
+        -- non-vacuity evidence for C18c: does this definition satisfy `LoadableWF` (evaluated as Booleans)?
+        let d := b.toDefinition
+        let rec normOk : Normalization → Bool
+          | .append s | .prepend s => validUtf8 s
+          | .replace (.string s) rep => validUtf8 s && validUtf8 rep
+          | .replace _ rep => validUtf8 rep
+          | .conditional _ inner => normOk inner
+          | _ => true
+        let splitOk : Split → Bool
+          | .pattern (.string s) _ => validUtf8 s
+          | _ => true
+        let wf := d.specials.all (fun s => !s.bytes.isEmpty) && d.model.vocab.all (fun e => !e.2.isEmpty && e.1 != INVALID) &&
+          decide (d.model.vocab.length ≤ MAXR) && d.config.normalization.all normOk && d.config.split.all splitOk
+        (st', s!"{showInit r} || HOLDS-NA loadable-wf={if wf then 1 else 0}")
       | _ => (st, "BAD-OP")
   | _ => (st, "BAD-OP")
 
